@@ -110,6 +110,53 @@ class MonitoredGraph(nx.Graph):
         return g
 
 
+class _CanonicalEdgeData:
+    """iterable returned by G.edges(nbunch, data=...) of a CanonicalEdgesMonitoredGraph: same edges, each reported (smaller, larger)"""
+
+    def __init__(self, view):
+        self._view = view
+
+    def __iter__(self):
+        for e in self._view:
+            u, v = e[0], e[1]
+            try:
+                swap = v < u
+            except TypeError:
+                swap = repr(v) < repr(u)
+            yield ((v, u) + tuple(e[2:])) if swap else tuple(e)
+
+    def __len__(self):
+        return len(self._view)
+
+    def __contains__(self, e):
+        return e in self._view
+
+
+class _CanonicalEdgeView(nx.classes.reportviews.EdgeView):
+    __slots__ = ()
+
+    def __iter__(self):
+        return iter(_CanonicalEdgeData(nx.classes.reportviews.EdgeView.__iter__(self)))
+
+    def __call__(self, nbunch=None, data=False, *, default=None):
+        if nbunch is None and data is False:
+            return self
+        return _CanonicalEdgeData(nx.classes.reportviews.EdgeView.__call__(self, nbunch, data=data, default=default))
+
+    def data(self, data=True, default=None, nbunch=None):
+        return _CanonicalEdgeData(nx.classes.reportviews.EdgeView.data(self, data=data, default=default, nbunch=nbunch))
+
+
+class CanonicalEdgesMonitoredGraph(MonitoredGraph):
+    """a caller's nx.Graph subclass that reports every edge in ONE canonical orientation (smaller end point first), whichever end
+    point it was asked about: G.edges(u) may yield (w, u).  Legitimate for an undirected graph; code that assumes "the vertex I asked
+    about comes first" reads the wrong partner."""
+
+    @property
+    def edges(self):
+        return _CanonicalEdgeView(self)
+
+
 def snapshot(G):
     """hashable-free deep snapshot of nodes+attrs and edges+attrs for before/after comparison"""
     import copy
